@@ -129,6 +129,14 @@ theorem pushR_map (st : Stk) (b : Nat) : (st.map ρ).pushR (ρ b) = (st.pushR b)
 omit E in
 theorem swap_map (st : Stk) : (st.map ρ).swap = (st.swap).map ρ := rfl
 
+omit E in
+theorem resolved_map (vr : Variant) (side : Bool) (st : Stk) (d : Nat) :
+    (st.map ρ).resolved vr side d = (st.resolved vr side d).map ρ := by
+  unfold Stk.resolved
+  split
+  · split <;> simp [Stk.map, List.map_drop]
+  · rfl
+
 include hrec
 
 theorem cycleLeft_map (vr : Variant) (asm : Asm) (st : Stk) (d b : Nat) :
@@ -139,16 +147,16 @@ theorem cycleLeft_map (vr : Variant) (asm : Asm) (st : Stk) (d b : Nat) :
   rw [this, resolveCycle_map E]
   cases resolveCycle (if vr.leftCycleOnRightStack then st.r else st.l) d with
   | none => rfl
-  | some sid => exact hrec _ _ _ _
+  | some sid => simp only [Option.map_some, resolved_map]; exact hrec _ _ _ _
 
-theorem cycleRight_map (asm : Asm) (st : Stk) (a d : Nat) :
-    cycleRight rec' (mapAsm ρ asm) (st.map ρ) (ρ a) d = mapRes ρ (cycleRight rec asm st a d) := by
+theorem cycleRight_map (vr : Variant) (asm : Asm) (st : Stk) (a d : Nat) :
+    cycleRight vr rec' (mapAsm ρ asm) (st.map ρ) (ρ a) d = mapRes ρ (cycleRight vr rec asm st a d) := by
   unfold cycleRight
   have : (st.map ρ).r = st.r.map ρ := rfl
   rw [this, resolveCycle_map E]
   cases resolveCycle st.r d with
   | none => rfl
-  | some sid => exact hrec _ _ _ _
+  | some sid => simp only [Option.map_some, resolved_map]; exact hrec _ _ _ _
 
 theorem unionLeft_map (vr : Variant) (mode : Mode) (asm : Asm) (st : Stk) (a b : Nat)
     (vs : List Nat) :
@@ -345,14 +353,14 @@ theorem relStep_map (vr : Variant) (mode : Mode) (asm : Asm) (st : Stk) (a b : N
       cases tb <;> simp only [Ty.rename, List.map_cons, relStep]
       all_goals first
         | rfl
-        | exact cycleRight_map E hrec asm st a _
+        | exact cycleRight_map E hrec vr asm st a _
         | (rw [← List.map_cons]; exact unionLeft_map E hrec vr mode asm st a b (x :: xs))
   · cases ta <;> cases tb <;> simp only [Ty.rename, relStep, hmapF]
     all_goals first
       | exact absurd ⟨_, rfl⟩ hu
       | rfl
       | exact cycleLeft_map E hrec vr asm st _ b
-      | exact cycleRight_map E hrec asm st a _
+      | exact cycleRight_map E hrec vr asm st a _
       | exact unionRight_map E hrec vr asm st a b _
       | exact tupleTuple_map E hrec vr mode asm st _ _
       | exact tuplePart_map E hrec asm st _ _ _
